@@ -6,8 +6,8 @@ import (
 	"net/http"
 	"os"
 	"path/filepath"
-	"runtime/pprof"
 	"reflect"
+	"runtime/pprof"
 	"strings"
 	"sync"
 	"sync/atomic"
